@@ -69,7 +69,9 @@ pub(crate) struct TipModel<'a> {
     fork: Chain,
     cfg: ClientCfg,
     n_peers: usize,
-    start_proven: bool,
+    /// 0 = fresh (nothing delivered), 1 = all peers proven on the main chain, 2 = split: peer 1
+    /// proven on the main chain one block ahead, peer 2 proven on the competing branch
+    start: u8,
     base_height: u64,
     track: RefCell<Track>,
 }
@@ -172,6 +174,10 @@ impl<'a> Model for TipModel<'a> {
         for p in 1..=self.n_peers {
             if p == 3 {
                 world.add_peer(p, 1, self.base_height - 1);
+            } else if self.start == 2 && p == 1 {
+                world.add_peer(p, 0, self.base_height + 1);
+            } else if self.start == 2 && p == 2 {
+                world.add_peer(p, 1, self.base_height);
             } else {
                 world.add_peer(p, 0, self.base_height);
             }
@@ -183,11 +189,20 @@ impl<'a> Model for TipModel<'a> {
         };
         crate::verif_hooks::rng_reset(12);
         *self.track.borrow_mut() = Track::default();
-        for p in 1..=self.n_peers {
-            sim.connect(p);
-        }
-        if self.start_proven {
+        sim.record_trace = std::env::var("VERIF_TRACE").is_ok();
+        if self.start == 2 {
+            // peer 2 (competing branch, lighter) is proven first, then peer 1 takes the tip over
+            sim.connect(2);
             sim.converge(40);
+            sim.connect(1);
+            sim.converge(40);
+        } else {
+            for p in 1..=self.n_peers {
+                sim.connect(p);
+            }
+            if self.start >= 1 {
+                sim.converge(40);
+            }
         }
         let (td, tip, _, _) = Self::stored(&sim);
         self.track.borrow_mut().prev = Some((td, tip));
@@ -443,13 +458,13 @@ impl<'a> Model for TipModel<'a> {
 
 pub(crate) fn run(opts: &Opts, report: &mut Report) {
     let thorough = opts.thorough();
-    // (peers, start proven, max depth)
-    let configs: Vec<(usize, bool, usize)> = if thorough { vec![(2, true, 6), (2, false, 6), (3, true, 5)] } else { vec![(2, true, 3), (2, false, 3)] };
+    // (peers, start, max depth)
+    let configs: Vec<(usize, u8, usize)> = if thorough { vec![(2, 1, 6), (2, 0, 6), (2, 2, 5), (3, 1, 5)] } else { vec![(2, 1, 3), (2, 0, 3), (2, 2, 3)] };
     const SHARDS: usize = 16;
     let n_items = configs.len() * SHARDS;
     let worker = crate::verif::props::shard::run("C12", opts, report, n_items, 16, |item, report| {
         let env = Env::dummy();
-        let (n_peers, start_proven, max_depth) = configs[item / SHARDS];
+        let (n_peers, start, max_depth) = configs[item / SHARDS];
         let shard = item % SHARDS;
         let mut main = Chain::new(std::sync::Arc::clone(&env.consensus), scen::wavy_plan(6));
         scen::extend_chain(&mut main, &env.scripts, 60, &[]);
@@ -461,7 +476,7 @@ pub(crate) fn run(opts: &Opts, report: &mut Report) {
             fork,
             cfg: ClientCfg { last_n: 3, max_outbound: 2, cp_interval: 4, ..Default::default() },
             n_peers,
-            start_proven,
+            start,
             base_height: 14,
             track: RefCell::new(Track::default()),
         };
@@ -476,7 +491,7 @@ pub(crate) fn run(opts: &Opts, report: &mut Report) {
         } else {
             vec![]
         };
-        let name = format!("{}peers/{}", n_peers, if start_proven { "proven" } else { "fresh" });
+        let name = format!("{}peers/{}", n_peers, ["fresh", "proven", "split"][start as usize]);
         let mut not_judged = 0u64;
         let stats = {
             let mut rep = |hist: &[Ev], class: String, detail: String| {
@@ -527,4 +542,35 @@ pub(crate) fn run(opts: &Opts, report: &mut Report) {
     report.set("rule", json!("state = event list replayed on the real client (store + peers + pending messages + world position + event budgets, fingerprinted); transitions = (state, enabled event) pairs executed; every state: invariants; every distinct state: honest continuation to convergence"));
     report.set("bounds", json!({"depth": if thorough { "6 (2 peers), 5 (3 peers)" } else { "3" }, "budgets": "grow <= 3, forged <= 2, switch <= 2, tick <= 2, restart <= 1, duplicate <= 1", "roots": "sequences of length 2 dealt to 16 workers (a state reachable under two roots may be counted twice)"}));
     report.assume("dummy PoW: every re-sealed header is PoW-valid (an adversary can always mine one easy-target child)");
+}
+
+#[allow(dead_code)]
+pub(crate) fn debug_case() {
+    let env = Env::dummy();
+    let mut main = Chain::new(std::sync::Arc::clone(&env.consensus), scen::wavy_plan(6));
+    scen::extend_chain(&mut main, &env.scripts, 60, &[]);
+    let mut fork = main.fork(FORK_AT, 777);
+    scen::extend_chain(&mut fork, &env.scripts, 60, &[]);
+    let m = TipModel {
+        env: &env,
+        main,
+        fork,
+        cfg: ClientCfg { last_n: 3, max_outbound: 2, cp_interval: 4, ..Default::default() },
+        n_peers: 2,
+        start: 2,
+        base_height: 14,
+        track: RefCell::new(Track::default()),
+    };
+    let mut sim = m.init(None);
+    sim.record_trace = true;
+    println!("{}", sim.c().peers.verif_dump(client::now()));
+    println!("stored {:?} bans {:?}", TipModel::stored(&sim).2, sim.bans());
+    for ev in [Ev::Grow(2, 1), Ev::Deliver(2)] {
+        m.apply(&mut sim, &ev);
+        println!("after {:?}: {:?} stored #{}", ev, m.check(&sim, &[]), TipModel::stored(&sim).2);
+    }
+    for l in &sim.trace {
+        println!("{}", l);
+    }
+    println!("{}", sim.c().peers.verif_dump(client::now()));
 }
